@@ -63,7 +63,15 @@ def main():
                     print('%-44s %s patch does not apply to HEAD' % (sid, prop))
                     continue
                 env = dict(os.environ, VERIF_REPO=wt)
-                c = sh(['./check', prop], cwd=vcopy, env=env, timeout=1800)
+                try:
+                    c = sh(['./check', prop], cwd=vcopy, env=env, timeout=int(os.environ.get('EVAL_TIMEOUT', '900')))
+                except subprocess.TimeoutExpired:
+                    sh(['pkill', '-f', 'harness/check.py ' + prop])
+                    results[sid] = dict(property=prop, outcome='TIMEOUT (the check did not finish: counts as not reported)',
+                                        what=(meta.get('what') or '')[:200])
+                    print('%-44s %s TIMEOUT' % (sid, prop))
+                    sys.stdout.flush()
+                    continue
                 lines = c.stdout.splitlines()
                 viol = [l for l in lines if l.startswith('VIOLATION')]
                 concrete = [l for l in viol if 'no-failing-input-found' not in l]
